@@ -42,11 +42,14 @@ def parse(abbr: str, config: Config):
     if text:
         config.user_config['text'] = None
 
-    snippets(abbr, config)
-    # BEM data of visited nodes lives as long as this walk, not longer
-    bem_lookup = {}
-    walk(abbr, lambda node, ancestors, cfg: transform(node, ancestors, cfg, bem_lookup), config)
-    config.user_config['text'] = text
+    try:
+        snippets(abbr, config)
+        # BEM data of visited nodes lives as long as this walk, not longer
+        bem_lookup = {}
+        walk(abbr, lambda node, ancestors, cfg: transform(node, ancestors, cfg, bem_lookup), config)
+    finally:
+        if text:
+            config.user_config['text'] = text
     return abbr
 
 def stringify(abbr: Abbreviation, config: Config):
